@@ -4,7 +4,7 @@
 export GOFLAGS=-mod=mod GOPROXY=off GOSUMDB=off GOTOOLCHAIN=local
 WT=/tmp/wt/revert
 ROOT=/tmp/revert-root
-MAP=${MAP:-"ba59860:C08 173cc59:C01 e627dc0:C18 b2d5245:C17 06ee6a2:C12 0b4d1b6:C13 ac28f30:C10 fc88e98:C08 c272ecb:C08 205f09e:C19 0318d87:C02 f85696f:C02 dca109f:C03 e68fc9d:C03 2da9271:C08 3a75bb0:C08 9752e16:C08 42e0b39:C04 25cc2e4:C04 2c2b3a7:C04 4fe45a0:C19 ecc7f1e:C05 9fab35d:C05 124bcb7:C05 f694db7:C05 899ba02:C08 a6568fd:C17 461629c:C08 e6de1e7:C06 354bee0:C08 96767c4:C06 09b2cb0:C17 fdaa875:C18 838c556:C18"}
+MAP=${MAP:-"ba59860:C08 173cc59:C01 e627dc0:C18 b2d5245:C17 06ee6a2:C12 0b4d1b6:C13 ac28f30:C10 fc88e98:C08 c272ecb:C08 205f09e:C19 0318d87:C02 f85696f:C02 dca109f:C03 e68fc9d:C03 2da9271:C08 3a75bb0:C08 9752e16:C08 42e0b39:C04 25cc2e4:C04 2c2b3a7:C04 4fe45a0:C19 ecc7f1e:C05 9fab35d:C05 124bcb7:C05 f694db7:C05 899ba02:C08 a6568fd:C17 461629c:C08 e6de1e7:C06 354bee0:C08 96767c4:C06 09b2cb0:C17 fdaa875:C18 838c556:C18 aa22cdd:C02 6524099:C17"}
 rm -rf $ROOT; mkdir -p $ROOT/tmp $ROOT/evidence
 cp /verif/KNOWN_FINDINGS.json $ROOT/
 git -C /repo worktree remove --force $WT 2>/dev/null
